@@ -273,7 +273,7 @@ def _read_cmp(arr, ref, kind, key, lin):  # noqa: C901, PLR0911, PLR0912
     raise AssertionError(kind)
 
 
-def ops(backend, shape, internal, mask, k0, kind, j0, j1, v0, v1, q0, q1, q2, slpos, lin, reopen):
+def ops(backend, shape, internal, mask, k0, kind, j0, j1, v0, v1, q0, q1, q2, slpos, lin, reopen, forms=None):
     """dump(k0, v0); dump((j0, j1)[:rank], v1); then one read operation compared with the reference."""
     L.reset()
     try:
@@ -316,6 +316,13 @@ def ops(backend, shape, internal, mask, k0, kind, j0, j1, v0, v1, q0, q1, q2, sl
         key = [q0, q1, q2][: len(mask)]
         if slpos and slpos <= len(key):
             key[slpos - 1] = slice(None)
+        if forms is not None:
+            # per axis: 0 = the integer q, otherwise a slice built from q (one element / empty, open ended, strided)
+            for a in range(len(key)):
+                fa = L.concretize(forms[a], 0, 5)
+                q = key[a]
+                if fa:
+                    key[a] = [None, slice(None), slice(q, q + 1), slice(q, None), slice(None, None, 2), slice(None, q)][fa]
         return _read_cmp(arr, ref, kind, tuple(key), lin)
     finally:
         L.cleanup_dirs()
@@ -512,6 +519,22 @@ def obligations(tier):  # noqa: C901
                     f"__getitem__ with symbolic key in [{lo(2)}..{hi(2)}]-style ranges per axis, slice(None) at position {slpos} (0 = none)",
                     canaries=("strides",) if (be == "file" and gid == "e23" and slpos == 0) else (),
                 )  # fmt: skip
+            if thorough or gid in ("e23", "e2i2e3"):
+                jlast = " and ".join(f"j{a} == {n - 1}" for a, n in enumerate(shape))
+                fmax = 5 if (len(full) <= 2 or thorough) else 2
+                for f0 in range(6):
+                    obs.append(
+                        Ob(
+                            f"ops_{be}_{gid}_slices{f0}",
+                            P + [("f1", I), ("f2", I)],
+                            [jlast, jfix, qpre, qfix, "lin == 0", " and ".join(f"0 <= f{a} <= {fmax}" for a in range(1, len(full))), " and ".join(f"f{a} == 0" for a in range(len(full), 3)) or "True"],
+                            f"H.ops({be!r}, {shape!r}, {internal!r}, {mask!r}, {k0!r}, 'get', j0, j1, v0, v1, q0, q1, q2, 0, lin, False, ({f0}, f1, f2))",
+                            timeout=300 if not thorough else 900,
+                            flags=flags,
+                            bounds=f"{be} ext={shape} int={internal} mask={mask}: __getitem__ where every axis is independently an int q or one of slice(None), slice(q, q+1) "
+                            f"(one element or empty), slice(q, None), slice(None, None, 2), slice(None, q) with symbolic q (first axis form {f0}, other axes forms 0..{fmax}): shape and elements as NumPy",
+                        )
+                    )
             for kind in ("to_array", "to_array_nosplat", "mask"):
                 mk(kind, [jpre, jfix, Z, "lin == 0"], kind, 0, False, 90, f"read = {kind}")
             mk("index", [jpre, jfix, Z, f"0 <= lin < {size}"], "index", 0, False, 90, "has_index/get_from_index at a symbolic linear index",
